@@ -112,6 +112,8 @@ Definition tm_lerr (e : lerr) : tm :=
   | LMissingMetaInfo => N_ 1 | LParse n => L_ [N_ 2; N_ n] | LInvalidInfo => N_ 3 | LInvalidGroups => N_ 4
   | LObjectLibsMustBeDict => N_ 5 | LGuidelineLibMustBeDict => N_ 6 | LMissingLayerContents => N_ 7
   | LMissingDefaultLayer => N_ 8 | LMissingContents => N_ 9 | LGlyph => N_ 10 | LLegacy => N_ 11
+  | LDuplicateLayerName => N_ 12 | LDuplicateLayerDirectory => N_ 13 | LReservedLayerName => N_ 14
+  | LDuplicateGlyphFile => N_ 15
   end.
 
 (** [Font::load] *)
